@@ -514,6 +514,44 @@ def rule_r11_r12_zip_collect(body, log, where):
     return body
 
 
+def rule_r13_continue(body, log, where):
+    """R13: inside a loop body, a statement `if C { continue; }` that is a direct child of the loop body becomes
+       `if !(C) { <the remaining statements of the loop body> }` (same control flow: `continue` skips exactly those statements).
+       Opt-in (`rules=R13`): Verus rejects `continue` in `for` loops."""
+    n = 0
+    while True:
+        kind = rs.code_mask(body)
+        hit = None
+        for s_, e_, m in rs.find_code(body, kind, r'\bif\s+([^{};]+?)\s*\{\s*continue\s*;\s*\}', 0, len(body)):
+            hit = (s_, e_, m); break
+        if hit is None:
+            break
+        s_, e_, m = hit
+        # innermost loop body containing the statement
+        best = None
+        for kw, ks, bo in rs.find_loops(body, kind, 0, len(body)):
+            bc = rs.match_close(body, kind, bo)
+            if bo < s_ and e_ <= bc and (best is None or bo > best[0]):
+                best = (bo, bc)
+        if best is None:
+            raise Undecided('rule R13: `continue` outside a loop body in %s' % where)
+        bo, bc = best
+        depth = 0
+        for j in range(bo + 1, s_):
+            if kind[j] == 'c':
+                if body[j] in '{([':
+                    depth += 1
+                elif body[j] in '})]':
+                    depth -= 1
+        if depth != 0:
+            raise Undecided('rule R13: `continue` is not a direct child of its loop body in %s' % where)
+        rest = body[e_:bc]
+        body = body[:s_] + 'if !(%s) {' % m.group(1).strip() + rest + '}\n' + body[bc:]
+        n += 1
+    log.hit('R13.continue', n, where)
+    return body
+
+
 def rule_r5_mut_self(header, body, log, where):
     """`fn f(mut self, ..) { B }` -> `fn f(self, ..) { let mut self_ = self; B[self := self_] }`
        (Verus: "mut self" unsupported). Same moves, same mutations."""
@@ -889,6 +927,8 @@ def apply_fn(d, log, fnmap, out_lineno):
         body = rule_r8_result_combinators(body, log, where)
     if 'R9' in d.opts.get('rules', ''):
         body = rule_r9_iter_first(body, log, where)
+    if 'R13' in d.opts.get('rules', ''):
+        body = rule_r13_continue(body, log, where)
     if 'R11' in d.opts.get('rules', '') or 'R12' in d.opts.get('rules', ''):
         body = rule_r11_r12_zip_collect(body, log, where)
     if 'R4' not in d.norules:
